@@ -192,7 +192,7 @@ def rate_limiter_state(ctx):
                       (f' (it assigns the local `{attr}` instead, which is never read)' if dead else '') +
                       ': the reconnect rate is never limited, every communicate() on a dead link tries to connect again', f)
     if not found:
-        raise AnchorMissing('rate limit guard (comparison with self._last_connect_attempt) not found in check_connection')
+        raise AnchorMissing('rate limit guard (comparison with self._last_connect_attempt) not found in check_connection', violation='frappy.io.IOBase.check_connection:rate limit guard present')
 
 
 def lexpos(node):
@@ -239,8 +239,14 @@ def framing(ctx):
     ok = any(len(c.args) == 2 and isinstance(c.args[1], ast.Constant) and c.args[1].value == 1 for c in splits)
     ctx.check(ok, f'{rl.qualname}:split at first end_of_line', rl.node, 'self._rxbuffer.split(eol, 1)',
               'the buffer is not split at the first end_of_line only', rl)
-    keep = any(isinstance(n, ast.Assign) and isinstance(n.targets[0], ast.Tuple) and len(n.targets[0].elts) == 2
-               and src(n.targets[0].elts[1]) == 'self._rxbuffer' for n in body_walk(rl.node))
+    keep = False
+    for n in body_walk(rl.node):
+        if isinstance(n, ast.Assign) and isinstance(n.targets[0], ast.Tuple) and len(n.targets[0].elts) == 2 and src(n.targets[0].elts[1]) == 'self._rxbuffer':
+            v = n.value
+            if isinstance(v, ast.Name) and any(isinstance(o, ast.Call) and call_attr(o) == 'split' for o in origins(v, rl.node)):
+                keep = True
+            if isinstance(v, ast.Tuple) and len(v.elts) == 2 and isinstance(v.elts[1], ast.Subscript) and src(v.elts[1].slice) == '1':
+                keep = True
     ctx.check(keep, f'{rl.qualname}:remainder kept', rl.node, 'line, self._rxbuffer = splitted',
               'the remainder after the line is not stored back into the receive buffer', rl)
     rb = m.method(ASYN, 'readbytes', inherited=False)
